@@ -14,7 +14,7 @@ ID = "C09"
 RULE = ("Mode H: a world of live objects in ONE process - model A=All(B,Q) with B=Any(a,b) one shared object also under Q=AtMost(1,[c,B]) and "
         "under a second model N=Any(B,d); the same shape with generated ids; configurator pairs that are == and hash-equal but differently "
         "defined (rule R AtMost 1 vs AtMost 2: hash(-1)==hash(-2); leaf bounds (0,3) vs (1,2)); a configurator with defaulted rules - and a "
-        "menu of ~205 public API calls (incl. the built-in solver, whose answers are only compared with the pristine process) (evaluate / evaluate_propositions / assume with total, partial, sub-proposition-naming and "
+        "menu of ~250 public API calls (incl. calls whose receiver is an object the library derived by assume / reduce, a negate-derived object whose child list no constructor sorted, a model with leaves fixed to non-zero constants, text forms of the configurators) (incl. the built-in solver, whose answers are only compared with the pristine process) (evaluate / evaluate_propositions / assume with total, partial, sub-proposition-naming and "
         "own-id-naming interpretations, reduce, negate, errors, to_json, to_b64, to_text, flatten, variables, flags, to_ge_polyhedron, solve, "
         "ge_polyhedron, default_prios, leafs, select, add, ...). EVERY call sequence of length <=2 (thorough: <=3 via state de-duplication) is "
         "replayed from scratch in a child forked from a pristine parent. invariants: (1) every call in every reachable state returns what "
